@@ -8,6 +8,6 @@ ls seeded | while read n; do
   id=$(python3 -c "import json;print(json.load(open('seeded/$n/meta.json'))['breaks_property'])")
   echo "$n $id"
 done > /var/tmp/seedregress.list
-cat /var/tmp/seedregress.list | xargs -P 4 -L 1 bash -c 'r=$(/verif/seedtest.sh /verif/seeded/$0/patch.diff '$B' $1 2>&1 | grep "^== " | head -1); echo "$0 $r"' > /var/tmp/seedregress.log 2>&1
+cat /var/tmp/seedregress.list | xargs -P 3 -L 1 bash -c 'r=$(/verif/seedtest.sh /verif/seeded/$0/patch.diff '$B' $1 2>&1 | grep "^== " | head -1); echo "$0 $r"' > /var/tmp/seedregress.log 2>&1
 echo done >> /var/tmp/seedregress.log
 rm -rf /var/tmp/simsnap
